@@ -36,4 +36,15 @@ Theorem tie_SingleExp_records :
   kind_writes KSingleExp = SingleExponentialCurrent_forward_writes /\ kind_writes KSingleExp = SingleExponentialCurrent_clear_resets.
 Proof. split; reflexivity. Qed.
 
+(* the optional constructor arguments default to the values the harness assumes, for the constructor and for
+   partialconstructor alike *)
+Theorem tie_SingleExp_defaults :
+  mode_of_code SingleExponentialCurrent_default_interp_mode = dflt_mode /\ SingleExponentialCurrent_default_delay NM = dflt_delay NM /\
+  SingleExponentialCurrent_default_interp_tol NM = dflt_tol NM /\ SingleExponentialCurrent_default_current_overbound NM = dflt_cur_ob NM /\
+  SingleExponentialCurrent_default_spike_overbound = dflt_spk_ob /\ SingleExponentialCurrent_default_batch_size = dflt_batch /\ SingleExponentialCurrent_default_inplace = dflt_inplace /\
+  mode_of_code SingleExponentialCurrent_partial_default_interp_mode = dflt_mode /\ SingleExponentialCurrent_partial_default_interp_tol NM = dflt_tol NM /\
+  SingleExponentialCurrent_partial_default_current_overbound NM = dflt_cur_ob NM /\ SingleExponentialCurrent_partial_default_spike_overbound = dflt_spk_ob /\
+  SingleExponentialCurrent_partial_default_inplace = dflt_inplace.
+Proof. repeat split; reflexivity. Qed.
+
 End Tie.
